@@ -1,7 +1,7 @@
 (* C04 -- Master/minion and VirtualServer/Route composition is exactly as declared.
    Only statements, each closed by [exact] and followed by Print Assumptions. *)
 From Coq Require Import List ZArith String Bool.
-From NIC Require Import Base.SMap Arb.Types Arb.Model Arb.Spec Arb.InvProofs Arb.ComposeProofs.
+From NIC Require Import Base.SMap Arb.Types Arb.Model Arb.Spec Arb.WinsProofs Arb.InvProofs Arb.ComposeProofs Arb.MinionProofs.
 Import ListNotations.
 Open Scope Z_scope.
 
@@ -39,6 +39,30 @@ Theorem C04_minions_attached_are_minions_of :
 Proof. exact build_minions_list. Qed.
 Print Assumptions C04_minions_attached_are_minions_of.
 
+(* Each path under a master's host is served by exactly one minion, the least claimant (earliest
+   creationTimestamp, then UID) among the minions of that host that list the path -- for any number
+   of minions and paths: a minion's mark for a path is `true` iff it is that least claimant.
+   Hypotheses: the minions of the host have distinct keys and none lists a path twice; the claimants
+   of the path have distinct UIDs (K1). *)
+Theorem C04_path_served_by_least_minion :
+  forall is_ host mk p,
+    minions_ok (minions_of is_ host) ->
+    uids_distinct (claimants (claims_of (minions_of is_ host)) p) ->
+    let s := scan (minions_of is_ host) (mkMS [] [] []) in
+    vp_get (ms_vp s) mk p = Some true <->
+    option_map fst (least (claimants (claims_of (minions_of is_ host)) p)) = Some mk.
+Proof. exact minion_path_owner. Qed.
+Print Assumptions C04_path_served_by_least_minion.
+
+(* and the ValidPaths rendered with each attached minion are exactly those marks *)
+Theorem C04_valid_paths_are_the_marks :
+  forall is_ host i,
+    In i (minions_of is_ host) ->
+    exists mc, In mc (fst (build_minions is_ host)) /\ mc_ing mc = i /\
+               forall p, lookup p (mc_valid_paths mc) = vp_get (ms_vp (scan (minions_of is_ host) (mkMS [] [] []))) (mkey (i_meta i)) p.
+Proof. exact build_minions_marks. Qed.
+Print Assumptions C04_valid_paths_are_the_marks.
+
 (* composition is a function of the current object set: no dependence on the order of events *)
 Theorem C04_order_independent :
   forall c es1 es2, objs_after es1 = objs_after es2 ->
@@ -46,3 +70,14 @@ Theorem C04_order_independent :
     get_resources (run c es1) = get_resources (run c es2).
 Proof. exact order_independent. Qed.
 Print Assumptions C04_order_independent.
+
+(* Non-vacuity: three minions claim /a; key order b < c < d, ages c oldest, d middle, b youngest:
+   c serves /a, exactly one mark is true (the scenario of a seeded three-contender bug). *)
+Definition mB := mkIng (mkMeta "ns" "b" "u1" 300 1 0) IMinion ["h"%string] ["/a"%string] false.
+Definition mC := mkIng (mkMeta "ns" "c" "u2" 100 1 0) IMinion ["h"%string] ["/a"%string] false.
+Definition mD := mkIng (mkMeta "ns" "d" "u3" 200 1 0) IMinion ["h"%string] ["/a"%string; "/d"%string] false.
+Example C04_three_minions_one_path :
+  map (fun mc => (mkey (i_meta (mc_ing mc)), mc_valid_paths mc))
+      (fst (build_minions (of_list [("ns/b", mB); ("ns/c", mC); ("ns/d", mD)]%string) "h"))
+  = [("ns/b", [("/a", false)]); ("ns/c", [("/a", true)]); ("ns/d", [("/d", true)])]%string.
+Proof. vm_compute. reflexivity. Qed.
